@@ -149,7 +149,8 @@ func Draw(t *sim.Tape, p DrawParams) *Workload {
 		}
 		if p.Requirements && i > 0 && t.Next(6) == 0 {
 			// a later step that replaces an entry by a body-less one
-			st.Ops = append(st.Ops, simfn.Op{"op": "blank", "name": pool[t.Next(len(pool))]})
+			// (for the resources the XR lists in spec.drop: the user can turn it on and off)
+			st.Ops = append(st.Ops, simfn.Op{"op": "blank", "items": "spec.drop"})
 		}
 		if p.Requirements && t.Next(2) == 0 {
 			switch t.Next(5) {
